@@ -648,6 +648,61 @@ def rule_r7(F, rep, rid="C12.R7"):
     rep.floor(R, n, 9, "value kinds and thunk states")
 
 
+def rule_r8(F, rep):
+    R = rep.rule("C12.R8", "external variables (and top-level arguments) form one namespace per run: the set that records the names "
+                 "already defined is allocated once per run — its allocation site lies in a function entered once (main / "
+                 "main_inner, or a helper with a single call site outside any loop). A set allocated inside a helper that is called "
+                 "once per option kind cannot see a name registered through another kind: `--ext-str x=1 --ext-code x=2` then "
+                 "reaches Program::add_ext_var twice, which panics (exit 101) instead of the diagnosed exit 1")
+    fns = [f for f in F.fn_list if f.crate.name == "rsjsonnet"]
+    sites = {}
+    for f in fns:
+        for bb, t in f.body.calls():
+            q = t["f"].get("r") if t["f"]["k"] == "def" else None
+            if q:
+                sites.setdefault(q, []).append((f, bb))
+    on_cycle_cache = {}
+
+    def on_cycle(f, bb):
+        key = (f.q, bb)
+        if key not in on_cycle_cache:
+            succ = f.body.succ_map()
+            on_cycle_cache[key] = bb in cfg.reachable(succ, list(succ[bb]))
+        return on_cycle_cache[key]
+
+    def entered_once(f, depth=0):
+        if f.q in ("rsjsonnet::main", "rsjsonnet::main_inner") and len(sites.get(f.q, [])) <= 1:
+            return True, None
+        ss = sites.get(f.q, [])
+        if len(ss) != 1 or depth > 4:
+            return False, "%s has %d call sites" % (f.q, len(ss))
+        g, bb = ss[0]
+        if on_cycle(g, bb):
+            return False, "%s is called inside a loop of %s" % (f.q, g.q)
+        return entered_once(g, depth + 1)
+    n = 0
+    for f in fns:
+        body = f.body
+        for bb, t in body.calls():
+            nm = callee_name(t) or ""
+            if not (nm.endswith("HashSet>::new") or nm.endswith("HashSet as core::default::Default>::default") or nm.endswith("HashSet>::with_capacity")
+                    or nm.endswith("HashSet>::with_hasher")):
+                continue
+            ty = body.ty(t["dst"]["t"])["s"]
+            if "InternedStr" not in ty:
+                continue
+            n += 1
+            ok, why = entered_once(f)
+            if ok and on_cycle(f, bb):
+                ok, why = False, "the allocation sits inside a loop of %s" % f.q
+            rep.ob(R, "%s|name-set@%d" % (f.q, n), ok, {"function": f.q, "set": ty})
+            if not ok:
+                rep.violation(R, "%s|per-call-name-set" % f.q, "%s allocates the set of already-defined names, but %s: names registered by "
+                              "another call are not seen, so a variable defined through two different options is not reported and the "
+                              "second registration panics" % (f.q, why), body.span(t["sp"]))
+    rep.floor(R, n, 2, "name sets of the command line tool")
+
+
 def run(F, rep, tier):
     rep.attempt(rule_r1_r3, F, rep)
     rep.attempt(rule_r2, F, rep)
@@ -662,6 +717,7 @@ def run(F, rep, tier):
     from . import c01
     rep.attempt(c01.rule_r2, F, rep)
     rep.attempt(rule_r5, F, rep)
+    rep.attempt(rule_r8, F, rep)
     rep.assume("byte-exact relations between modes, behaviour of a closed/full stdout at the OS level and clap's argument "
                "grammar are not decided")
     return EXPLANATION
